@@ -65,4 +65,9 @@ OBLIGATIONS = [
              "from the filenode and exactly the file's own segment size from filenode.get_segment_size() (so the re-encoded UEB can equal the original, with "
              "ueb_completeness); ciphertext is read sequentially from offset 0",
         outside="the upload itself (CHKUploader, server selection), 'never alters existing good shares', reading back from repaired shares"),
+    chx("repair_reports_written_shares", "C45_h", "h_repair_chain", timeout=T,
+        desc="real CHKUploader._encrypted_done output fed into real CiphertextFileNode._gather_repair_results (N=3, symbolic old good shares, buckets allocated on a "
+             "new server, symbolic subset of them whose writer completed = Encoder.get_shares_placed()): the post-repair sharemap lists exactly old good shares + "
+             "completed writers (never an allocated bucket whose writer failed); healthy/repair_successful <=> those are N distinct shares; pushed_shares == completed",
+        outside="the push itself and the encoder's bookkeeping of failed writers (C06 reported_placements / C01); byte-completeness of a completed share (C22)"),
 ]
